@@ -26,6 +26,7 @@ def run_mutant(patch, prop, tier="quick"):
             if m:
                 expect = m.group(1)
                 break
+    patch = os.path.abspath(patch)
     d = scratch_copy()
     try:
         r = subprocess.run(["patch", "-p1", "-s", "-d", d + "/src", "-i", patch],
